@@ -36,6 +36,7 @@ THEOREMS = [
     "no_external_content",
     "marker_never_in_tree",
     "fuel_monotone",
+    "result_is_a_function_of_the_document",
     "content_fuel_suffices",
     "standalone_no_is_absent",
     "loader_fetches_only_named",
